@@ -504,11 +504,16 @@ func (t *Thread) conc(v Value) Value {
 		if !ok {
 			return v
 		}
+		if u.chosen > 0 {
+			v = u.alts[u.chosen-1].v
+			continue
+		}
 		gs := make([]*Term, len(u.alts))
 		for i, a := range u.alts {
 			gs[i] = a.g
 		}
 		i := t.e.choose("union", gs)
+		u.chosen = i + 1
 		v = u.alts[i].v
 	}
 }
